@@ -729,7 +729,10 @@ fn exec_all(ctx: &mut CaseCtx, h: &History, hash: u64) {
     // (4) the allocator of a real VM
     ctx.progress("run vm-alloc");
     ctx.evaluation();
-    if let Ok(vm) = cao_lang::prelude::Vm::new(()) {
+    if let Ok(mut vm) = cao_lang::prelude::Vm::new(()) {
+        // ample limit: requested capacities go up to thousands of slots, and `clone` (whose
+        // signature cannot report a failed allocation) must not meet the VM's default limit
+        vm.runtime_data.set_memory_limit(1 << 30);
         let proxy = vm.runtime_data.verif_view().memory.clone();
         let info = run_history::<Tracked, _>(h, proxy, &|| 0, &|| 0, None);
         if let Some(f) = &info.fail {
@@ -812,7 +815,8 @@ impl Check for C13 {
                 }
             }
             _ => {
-                if let Ok(vm) = cao_lang::prelude::Vm::new(()) {
+                if let Ok(mut vm) = cao_lang::prelude::Vm::new(()) {
+                    vm.runtime_data.set_memory_limit(1 << 30);
                     let proxy = vm.runtime_data.verif_view().memory.clone();
                     let info = run_history::<Tracked, _>(&h, proxy, &|| 0, &|| 0, None);
                     if let Some(f) = &info.fail {
